@@ -384,6 +384,28 @@ func c18R5(c *Ctx) {
 		})
 		c.check(hit != nil, "pipelineRecvAck/end-phase-with-release", c.ipos(ci), "ending the probing phase releases the waiting encoder in the same step", "the probing phase is ended without releasing the encoder that waits for this ack (it waits forever)")
 	}
+	// the branch that only counts down (skipping the statistics and the release) is not taken while probing
+	nSkip := 0
+	eachInstr(f, func(in ssa.Instruction) {
+		b, ok := in.(*ssa.BinOp)
+		if !ok || b.Op != token.SUB || !isConstIntV(1)(b.Y) {
+			return
+		}
+		if p, isPhi := b.X.(*ssa.Phi); !isPhi || p.Comment != "ignoreChunkTimeCount" {
+			return
+		}
+		nSkip++
+		notProbing := false
+		for _, fc := range factsAt(b.Block()) {
+			if call, _ := callOf(fc.V); call != nil && !fc.Pol && isAtomicOnField(call, "bufInitPhase", "Load") {
+				notProbing = true
+			}
+		}
+		c.check(notProbing, "pipelineRecvAck/skip-stats-only-after-probing", c.ipos(b), "acks are exempt from the statistics (and the release) only when the probing phase is over", "an ack received while probing can skip the release of the waiting encoder (a pause during the probing phase hangs the transfer)")
+	})
+	if nSkip != 1 {
+		c.undecided("pipelineRecvAck/skip-branch", "the count-down branch was not found")
+	}
 	// the branch that skips statistics is not taken while probing
 	for _, b := range f.Blocks {
 		i := blockIf(b)
